@@ -335,77 +335,43 @@ def rule_order(facts, rep):
     names = [p.get("name") for p in b["params"]]
     if names != ["self", "performer", "state", "action", "byte"]:
         raise AnchorMissing(f"perform_state_change parameters are {names}")
-    pid = {p["name"]: p.get("id") for p in b["params"]}
-    paths = hir.enumerate_paths(b["hir"])
-    src = hir.binding_sources(b["hir"])
+    import abseval
     states = list(vt500.STATES)
     if "Anywhere" not in states:
         states = states + ["Anywhere"]
-    # the body can only tell apart the states it names (in a pattern or a comparison): those, the states with an entry / exit
-    # action in the specification, and one representative of all the others, are the cases
-    named = set()
-    for n in nm_all_nodes(b["hir"]):
-        pth = n.get("path") if n.get("k") in ("def", "ppath") else None
-        if isinstance(pth, str) and pth.startswith(cp.STATE + "::"):
-            named.add(pth.split("::")[-1])
-    interesting = named | set(vt500.EXIT_ACTIONS) | set(vt500.ENTRY_ACTIONS) | {"Anywhere"}
-    others = [x for x in states if x not in interesting]
-    cases = [x for x in states if x in interesting] + others[:1]
+    # by abstract evaluation of the body on every (old state, target state) and a Nop / non-Nop action, the calls of perform_action
+    # recorded in order (a call with Action::Nop does nothing — perform_action's Nop arm is empty, rule action-map) and the state left
+    # in self.state: a match with a binding arm, `==` on the enums, an early return, helper functions naming the entry / exit
+    # action of a state are all the same function
+    cases = states
     n_cases = 0
     bad = {}
     for old in cases:
         for new in cases:
             for act in ("Nop", "Print"):
                 n_cases += 1
-                cur_state = [old]     # self.state changes when the assignment is passed; conditions are read before it in every accepted form
-
-                def val(e, depth=0):
-                    e = hir.simp(e)
-                    if e.get("k") == "def":
-                        return ("enum", e["path"])
-                    if e.get("k") == "local":
-                        if e.get("id") == pid["state"]:
-                            return ("enum", cp.STATE + "::" + new)
-                        if e.get("id") == pid["action"]:
-                            return ("enum", cp.ACTION + "::" + act)
-                        if e.get("id") in src and depth < 4:
-                            return val(src[e["id"]], depth + 1)
-                        return None
-                    if self_field(e, "state"):
-                        return ("enum", cp.STATE + "::" + cur_state[0])
-                    return None
-                def observe(t):
-                    if t[0] == "assign" and t[1].get("k") == "assign" and self_field(t[1]["l"], "state"):
-                        v = val(t[1]["r"])
-                        cur_state[0] = hir.last_seg(v[1]) if v else "?"
-                feas = []
-                for p in paths:
-                    cur_state[0] = old
-                    if hir.path_feasible(p, val, observe):
-                        feas.append(p)
-                cur_state[0] = old
+                seq = []
                 key = None
-                if len(feas) != 1:
-                    key = f"{len(feas)} feasible paths"
-                else:
-                    seq = []
-                    for t in feas[0].trace:
-                        observe(t)
-                        if t[0] == "eval":
-                            a = perform_action_call(t[1])
-                            if a is None:
-                                if hir.simp(t[1]).get("k") == "call":
-                                    seq.append(("call", hir.callee(hir.simp(t[1]))))
-                                continue
-                            v = val(a)
-                            seq.append(("act", hir.last_seg(v[1]) if v else "?"))
-                        elif t[0] == "assign":
-                            n = t[1]
-                            if n.get("k") == "assign" and self_field(n["l"], "state"):
-                                v = val(n["r"])
-                                seq.append(("state", hir.last_seg(v[1]) if v else "?"))
-                            else:
-                                seq.append(("store", hirpp.expr(n)[:40]))
+
+                def rec(a_):
+                    v = a_[2]
+                    seq.append(("act", hir.last_seg(v[1]) if v[0] == "enum" else "?"))
+                    return ("unit",)
+                ev = abseval.Evaluator(facts, cp.CRATE, {P + "perform_action": rec})
+                env = abseval.Env()
+                env.update({"self": ("sym", "self"), "self.state": ("enum", cp.STATE + "::" + old), "performer": ("sym", "performer"),
+                            "state": ("enum", cp.STATE + "::" + new), "action": ("enum", cp.ACTION + "::" + act), "byte": ("sym", "byte")})
+                try:
+                    try:
+                        ev.ev(b["hir"], env)
+                    except abseval.Return:
+                        pass
+                    after = env["self.state"]
+                    if after != ("enum", cp.STATE + "::" + old) or new == old:
+                        if not (new == "Anywhere"):
+                            seq.append(("state", hir.last_seg(after[1]) if after[0] == "enum" else "?"))
+                        elif after != ("enum", cp.STATE + "::" + old):
+                            seq.append(("state", hir.last_seg(after[1]) if after[0] == "enum" else "?"))
                     seq = [x for x in seq if x != ("act", "Nop")]
                     if new == "Anywhere":
                         want = [("act", act)] if act != "Nop" else []
@@ -415,6 +381,8 @@ def rule_order(facts, rep):
                                ([("act", vt500.ENTRY_ACTIONS[new])] if new in vt500.ENTRY_ACTIONS else []) + [("state", new)]
                     if seq != want:
                         key = f"effects {seq}, expected {want}"
+                except Unrecognised as ex:
+                    key = f"not evaluable: {ex}"
                 if key:
                     which = ("anywhere-runs-action-only" if new == "Anywhere" else
                              "1-exit-actions-of-old-state" if old in vt500.EXIT_ACTIONS and "act" in key and vt500.EXIT_ACTIONS[old] not in key.split("expected")[0] else
@@ -530,16 +498,36 @@ def rule_action_map(facts, rep):
     chk("Put", a and is_byte(a[0]) and len(hir.stmts_of(tbl["Put"]["body"])) == 1, "Put → performer.put(byte)")
     a = perform_call(last_stmt("Unhook"), "unhook")
     chk("Unhook", a is not None and len(a) == 0 and len(hir.stmts_of(tbl["Unhook"]["body"])) == 1, "Unhook → performer.unhook()")
+    def arm_view(v):
+        """The arm's statements without `let x = <view of self's fields>;` (a slice or a reference named before it is passed), and a
+        resolver that sees through those names."""
+        st = hir.stmts_of(tbl[v]["body"])
+        R = hir.Resolver(tbl[v]["body"])
+
+        def view_let(x):
+            x = hir.simp(x)
+            if not (x.get("k") == "let" and x["pat"].get("k") == "pbind" and "init" in x and "els" not in x):
+                return False
+            return not any(n_.get("k") in ("call", "assign", "assignop", "closure", "match", "if", "loop") for n_ in hir.walk(x["init"]))
+        # (such a name must be taken after the pending parameter was pushed: a copy of `ignoring` from before the push would be stale)
+        keep = [x for x in st if not view_let(x)]
+        first_view = next((i for i, x in enumerate(st) if view_let(x)), None)
+        stale = first_view is not None and any(is_push_pending(x) for x in st[first_view + 1:]) and \
+            any("ignoring" in hirpp.expr(hir.simp(x)["init"]) for x in st if view_let(x))
+        return keep, R, stale
     for v, meth in (("Hook", "hook"), ("CsiDispatch", "csi_dispatch")):
-        s = hir.stmts_of(tbl[v]["body"])
+        s, R_, stale = arm_view(v)
         a = perform_call(s[-1], meth) if s else None
-        okargs = a and len(a) == 4 and is_params(a[0]) and is_inter(a[1]) and is_ign(a[2]) and is_byte(a[3])
+        a = [R_.res(hir.peel(x)) for x in a] if a else a
+        okargs = a and len(a) == 4 and is_params(a[0]) and is_inter(a[1]) and is_ign(a[2]) and is_byte(a[3]) and not stale
         okpush = len(s) == 2 and is_push_pending(s[0])
         chk(v, okargs and okpush,
             f"{v} → push the pending parameter (or set ignoring when full), then performer.{meth}(params, intermediates, ignoring, byte)")
-    a = perform_call(last_stmt("EscDispatch"), "esc_dispatch")
+    s, R_, stale = arm_view("EscDispatch")
+    a = perform_call(s[-1], "esc_dispatch") if s else None
+    a = [R_.res(hir.peel(x)) for x in a] if a else a
     chk("EscDispatch", a and len(a) == 3 and is_inter(a[0]) and is_ign(a[1]) and is_byte(a[2])
-        and len(hir.stmts_of(tbl["EscDispatch"]["body"])) == 1, "EscDispatch → performer.esc_dispatch(intermediates, ignoring, byte)")
+        and len(s) == 1, "EscDispatch → performer.esc_dispatch(intermediates, ignoring, byte)")
     s = hir.stmts_of(tbl["OscEnd"]["body"])
     l = hir.simp(s[-1]) if s else {}
     chk("OscEnd", hir.is_call(l, P + "osc_dispatch") and [hir.local_name(x) for x in l["args"]] == ["self", "performer", "byte"],
@@ -792,6 +780,11 @@ def rule_reset(facts, rep):
                 z[l["name"]] = hir.lit_val(s["r"])
     rep.check(z == {"current_subparams": 0, "len": 0}, "reset", pc["path"], "zeroes-len-and-subparams", f"{z}", loc(pc))
     # intermediates() exposes exactly the prefix below intermediate_idx
+    if not facts.crate(cp.CRATE)["_bodies"].get(P + "intermediates"):
+        # the accessor written in place at its call sites: the dispatch arms' own argument check (action-map, is_inter) reads the slice
+        rep.ok("reset", P + "perform_action", "prefix-below-idx", "no accessor: the dispatch arms pass &self.intermediates[..self.intermediate_idx] themselves")
+        rep.fn(pc["path"])
+        return
     bi = facts.body(cp.CRATE, P + "intermediates")
     idx = [n for n in hir.walk(bi["hir"]) if n.get("k") == "index"]
     ok = False
